@@ -221,15 +221,19 @@ template<typename T> static void add_sampling(std::vector<std::vector<Target>>& 
   for (auto& k : uks) {
     const int kk = k.k;
     BuildFn b = [kk](Rng& r, bool T_) { return vu_image<T>(r, T_, kk); };
-    fam.back().push_back({"varopt_union_" + suffix, k.name, "bytes", b, bytes_path(vu_bytes<T>)});
-    fam.back().push_back({"varopt_union_" + suffix, k.name, "stream", b, stream_path(vu_stream<T>)});
+    // the union preamble (4 longs) is followed by the gadget sketch image, whose own preamble is preamble as well
+    auto pre = [](const Bytes& img) -> size_t { return img.size() <= 32 ? img.size() : std::min<size_t>(img.size(), 32 + 8 * (img[32] & 0x3f)); };
+    fam.back().push_back({"varopt_union_" + suffix, k.name, "bytes", b, bytes_path(vu_bytes<T>), pre});
+    fam.back().push_back({"varopt_union_" + suffix, k.name, "stream", b, stream_path(vu_stream<T>), pre});
   }
   fam.emplace_back();
   for (auto& k : eks) {
     const int kk = k.k;
     BuildFn b = [kk](Rng& r, bool T_) { return eb_image<T>(r, T_, kk); };
-    fam.back().push_back({"ebpps_" + suffix, k.name, "bytes", b, bytes_path(eb_bytes<T>)});
-    fam.back().push_back({"ebpps_" + suffix, k.name, "stream", b, stream_path(eb_stream<T>)});
+    // 5 preamble longs, then C (shown as long 5 of the header in the layout comment of ebpps_sketch_impl.hpp), then the items
+    auto pre = [](const Bytes& img) -> size_t { return std::min<size_t>(img.size(), 48); };
+    fam.back().push_back({"ebpps_" + suffix, k.name, "bytes", b, bytes_path(eb_bytes<T>), pre});
+    fam.back().push_back({"ebpps_" + suffix, k.name, "stream", b, stream_path(eb_stream<T>), pre});
   }
 }
 std::vector<Target> targets() {
